@@ -108,14 +108,21 @@ def run (ctx):
       facts = q.guard_facts(g, a)
       cap = any(r_ is not None and norm(l) == 'len(table)' and o == '<' and norm(r_) == 'self.max_entries' for l, o, r_, b in facts)
       ctx.ob('R-DOM', add, "insert only below table capacity", cap, "add_entry dominated by len(table) < self.max_entries" if cap else "facts: %s" % q.fact_strs(g, a), (swmod, a.ast), 'D2')
+    rme = ft.find_method('remove_matching_entries')
+    TOK = {'flow_mod.match': '<match>', 'flow_mod.priority': '<priority>'}
     for rn in rems:
       c = [c for c in q.node_calls(rn) if call_name(c) == 'remove_matching_entries'][0]
-      st = kwarg(c, 'strict', 2); pr = kwarg(c, 'priority', 1); m = kwarg(c, 'match', 0); rs = kwarg(c, 'reason', 4)
-      good = st is not None and norm(st) == 'True' and pr is not None and norm(pr) in ('priority', 'flow_mod.priority') and m is not None and norm(m) in ('match', 'flow_mod.match')
+      vals = {}
+      for nm, pos in (('match', 0), ('priority', 1), ('strict', 2), ('reason', 4)):
+        e_ = q.effective_arg(c, rme, nm, pos)
+        vals[nm] = q.values_at(repo, swmod, g, q.Env(dict(TOK)), rn, e_, sw) if e_ is not None else {None}
+      good = vals['strict'] == {True} and vals['priority'] == {'<priority>'} and vals['match'] == {'<match>'}
       ctx.ob('R-AGREE', add, "replacement removes exactly the identical entry (strict, same match and priority)", good,
-             norm(c) if good else "replace-on-ADD calls %s: not a strict removal of the new entry's own match and priority" % norm(c), (swmod, c), 'D2')
-      good = rs is None or norm(rs) == 'None'
-      ctx.ob('R-AGREE', add, "replacement yields no flow-removed (no reason passed)", good, "no reason" if good else "replace-on-ADD passes reason=%s: the replaced entry would generate a flow_removed" % norm(rs), (swmod, c), 'D2')
+             norm(c) if good else "replace-on-ADD calls %s (match=%s priority=%s strict=%s): not a strict removal of the new entry's own match and priority" % (
+               norm(c), sorted(map(str, vals['match'])), sorted(map(str, vals['priority'])), sorted(map(str, vals['strict']))), (swmod, c), 'D2')
+      good = vals['reason'] == {None}
+      ctx.ob('R-AGREE', add, "replacement yields no flow-removed (no reason passed)", good, "effective reason None" if good else
+             "replace-on-ADD removes the old entry with reason %s (explicitly or through remove_matching_entries' default): the replaced entry generates a spurious flow_removed" % sorted(map(str, vals['reason'])), (swmod, c), 'D2')
 
   # ---- D3 ------------------------------------------------------------------
   for strict_name, base_name in (('OFPFC_MODIFY_STRICT', 'OFPFC_MODIFY'), ('OFPFC_DELETE_STRICT', 'OFPFC_DELETE')):
@@ -131,48 +138,100 @@ def run (ctx):
   if dl is not None:
     cs = [c for c in calls_in(dl.node) if call_name(c) == 'remove_matching_entries']
     ctx.floor('delete removal call', len(cs), 1)
-    for c in cs:
-      good = norm(kwarg(c, 'strict', 2)) == 'strict' and norm(kwarg(c, 'reason', 4)) == 'OFPRR_DELETE' and norm(kwarg(c, 'out_port', 3)) == 'out_port' \
-             and norm(kwarg(c, 'priority', 1)) in ('priority', 'flow_mod.priority') and norm(kwarg(c, 'match', 0)) in ('match', 'flow_mod.match')
-      ctx.ob('R-AGREE', dl, "delete passes match, priority, strict, out_port and reason DELETE", good, norm(c) if good else "delete calls %s" % norm(c), (swmod, c), 'D3')
     g = q.cfg_of(dl)
-    # out_port NONE -> None
-    conv_ok = False
-    for t, v, st, k in q.stores_in(dl.node):
-      if isinstance(t, ast.Name) and t.id == 'out_port' and isinstance(v, ast.Constant) and v.value is None:
-        n = q.enclosing_stmt_node(g, st)
-        if 'out_port == OFPP_NONE' in q.fact_strs(g, n): conv_ok = True
-    src_ok = any(isinstance(t, ast.Name) and t.id == 'out_port' and v is not None and norm(v) == 'flow_mod.out_port' for t, v, st, k in q.stores_in(dl.node))
-    ctx.ob('R-AGREE', dl, "out_port filter taken from the message, OFPP_NONE meaning no filter", conv_ok and src_ok,
-           "out_port = flow_mod.out_port; OFPP_NONE -> None" if conv_ok and src_ok else "out_port handling changed (from message: %s, NONE->None: %s)" % (src_ok, conv_ok), dl, 'D3')
+    rme = ft.find_method('remove_matching_entries')
+    rr_delete = repo.try_const(swmod, ast.Name(id='OFPRR_DELETE', ctx=ast.Load()), sw)
+    none_port = repo.try_const(swmod, ast.Name(id='OFPP_NONE', ctx=ast.Load()), sw)
+    for c in cs:
+      cn = q.enclosing_stmt_node(g, c)
+      def val (nm, pos, extra):
+        e_ = q.effective_arg(c, rme, nm, pos)
+        if e_ is None: return {None}
+        env_ = {'flow_mod.match': '<match>', 'flow_mod.priority': '<priority>', 'strict': '<strict>'}; env_.update(extra)
+        return q.values_at(repo, swmod, g, q.Env(env_), cn, e_, sw)
+      some = {'flow_mod.out_port': 7}; none = {'flow_mod.out_port': none_port}
+      good = val('match', 0, some) == {'<match>'} and val('priority', 1, some) == {'<priority>'} and val('strict', 2, some) == {'<strict>'} and val('reason', 4, some) == {rr_delete}
+      ctx.ob('R-AGREE', dl, "delete passes match, priority, strict, out_port and reason DELETE", good, norm(c) if good else
+             "delete calls %s: effective match=%s priority=%s strict=%s reason=%s (DELETE is %s)" % (norm(c), *[sorted(map(str, val(n_, p_, some))) for n_, p_ in (('match', 0), ('priority', 1), ('strict', 2), ('reason', 4))], rr_delete), (swmod, c), 'D3')
+      a_, b_ = val('out_port', 3, some), val('out_port', 3, none)
+      good = a_ == {7} and b_ == {None}
+      ctx.ob('R-AGREE', dl, "out_port filter taken from the message, OFPP_NONE meaning no filter", good,
+             "out_port=7 -> filter 7; OFPP_NONE -> no filter" if good else
+             "with flow_mod.out_port = 7 the removal filters on %s, with OFPP_NONE on %s (expected 7 and None)" % (sorted(map(str, a_)), sorted(map(str, b_))), (swmod, c), 'D3')
   md = cmds.get('OFPFC_MODIFY')
   if md is not None:
     g = q.cfg_of(md)
+    def selects (test):
+      """is `test` the call X.is_matched_by(match, priority, strict) with the message's values?"""
+      if not (isinstance(test, ast.Call) and call_name(test) == 'is_matched_by'): return False
+      m_ = kwarg(test, 'match', 0); p_ = kwarg(test, 'priority', 1); s_ = kwarg(test, 'strict', 2)
+      return m_ is not None and norm(m_) in ('match', 'flow_mod.match') and p_ is not None and norm(p_) in ('priority', 'flow_mod.priority') and s_ is not None and norm(s_) == 'strict'
+    coll = [L_ for L_ in q.collected_lists(md) if any(p and selects(t) for t, p in L_.conds) and norm(L_.elt) == norm(L_.var)]
+    coll_names = dict((L_.name, L_) for L_ in coll)
     addc = g.nodes_with_call(lambda c: call_name(c) == '_flow_mod_add')
-    for a in addc:
-      fs = q.fact_strs(g, a)
-      good = 'modified:falsy' in fs
-      ctx.ob('R-DOM', md, "modify acts as add only when no entry matched", good, "dominated by `not modified`" if good else "facts %s" % fs, (swmod, a.ast), 'D3')
-    # modified=True and actions assignment on the same paths, under is_matched_by(match, priority, strict)
     acts = [st for t, v, st, k in q.stores_in(md.node) if isinstance(t, ast.Attribute) and t.attr == 'actions']
-    flags = [st for t, v, st, k in q.stores_in(md.node) if isinstance(t, ast.Name) and t.id == 'modified' and isinstance(v, ast.Constant) and v.value is True]
+    flagnames = set()
     for a in acts:
       an = q.enclosing_stmt_node(g, a)
-      fs = q.fact_strs(g, an)
-      good = any('is_matched_by(match, priority=priority, strict=strict)' in f and f.endswith(':truthy') for f in fs)
-      ctx.ob('R-DOM', md, "actions replaced only on entries the match selects (with priority and strictness)", good, "guarded" if good else "facts %s" % fs, (swmod, a), 'D3')
+      for t, v, st, k in q.stores_in(md.node):
+        if isinstance(t, ast.Name) and isinstance(v, ast.Constant) and v.value is True:
+          fn_ = q.enclosing_stmt_node(g, st)
+          if fn_ is not None and an is not None and (g.postdominates(fn_, an) or g.dominates(fn_, an)): flagnames.add(t.id)
+    for a in addc:
+      fs = q.fact_strs(g, a)
+      good = any(f == nm + ':falsy' for nm in flagnames | set(coll_names) for f in fs) or any(f in ('len(%s) == 0' % nm for nm in coll_names) for f in fs)
+      ctx.ob('R-DOM', md, "modify acts as add only when no entry matched", good, "dominated by `not <modified / selected entries>`" if good else "facts %s" % fs, (swmod, a.ast), 'D3')
+    ctx.floor('modify: action replacement sites', len(acts), 1)
+    for a in acts:
+      an = q.enclosing_stmt_node(g, a)
+      guards = [(t, p) for t, p, b_ in g.guards(an) if not isinstance(t, (ast.For, ast.AsyncFor))]
+      direct = any(p and selects(t) for t, p in guards)
+      via = None
+      for (st, h, af) in g.loop_nodes:
+        if isinstance(st, ast.For) and an in g.loop_body_nodes(h) and isinstance(st.iter, ast.Name) and st.iter.id in coll_names and norm(st.target) == norm(a.targets[0].value): via = coll_names[st.iter.id]
+      good = direct or via is not None
+      ctx.ob('R-DOM', md, "actions replaced only on entries the match selects (with priority and strictness)", good,
+             "guarded by is_matched_by(match, priority, strict)" if direct else ("applied to the entries collected under is_matched_by(...)" if via else "facts %s" % q.fact_strs(g, an)), (swmod, a), 'D3')
       good = norm(a.value) == 'flow_mod.actions'
       ctx.ob('R-AGREE', md, "modified entries get the message's actions", good, norm(a), (swmod, a), 'D3')
-      fl = [q.enclosing_stmt_node(g, f_) for f_ in flags]
-      good = any(f_ is not None and (g.postdominates(f_, an) or g.dominates(f_, an)) for f_ in fl)
-      ctx.ob('R-ORDER', md, "a modification is recorded whenever an entry was modified", good, "modified=True on the same path" if good else "entry.actions is replaced without recording it: the flow-mod would additionally be treated as ADD", (swmod, a), 'D3')
+      good = via is not None or bool(flagnames)
+      ctx.ob('R-ORDER', md, "a modification is recorded whenever an entry was modified", good, "recorded on the same path / by the collected list" if good else "entry.actions is replaced without recording it: the flow-mod would additionally be treated as an ADD", (swmod, a), 'D3')
+    scans = 0
     for (st, h, af) in g.loop_nodes:
+      if isinstance(st, ast.For) and isinstance(st.iter, ast.Name) and st.iter.id in coll_names:
+        body = g.loop_body_nodes(h)
+        early = [n for n in body if n.kind in ('break', 'return')]
+        ctx.ob('R-ALL', md, "every selected entry is modified", not early, "no break/return" if not early else "the apply loop leaves early at line %s" % early[0].line, (swmod, st), 'D7')
+        continue
+      scans += 1
       body = g.loop_body_nodes(h)
       early = [n for n in body if n.kind in ('break', 'return')]
       ctx.ob('R-ALL', md, "modify visits every entry", not early, "no break/return in the scan" if not early else "scan leaves early at line %s: later matching entries keep their old actions" % early[0].line, (swmod, st), 'D7')
       good = norm(st.iter) in ('table.entries', 'table._table')
       ctx.ob('R-AGREE', md, "modify scans the whole table", good, norm(st.iter), (swmod, st), 'D7')
+    for L_ in coll:
+      scans += 1
+      good = norm(L_.it) in ('table.entries', 'table._table')
+      ctx.ob('R-AGREE', md, "modify scans the whole table", good, norm(L_.it), (swmod, L_.site), 'D7')
+    ctx.floor('modify: table scans', scans, 1)
 
+  # ---- overlap scan: an early exit from a scan of the sorted table may only be decided on the sort key ----------
+  cfo = ft.find_method('check_for_overlapping_entry')
+  if cfo is not None:
+    ctx.analysed(cfo); g = q.cfg_of(cfo)
+    for (st, h, af) in g.loop_nodes:
+      if not (isinstance(st, ast.For) and norm(st.iter) == 'self._table'): continue
+      lv = norm(st.target)
+      for n in g.nodes:
+        if n.kind != 'break' or not any(x is af for x, l_ in n.succ): continue
+        for l, o, r, b_ in q.guard_facts(g, n):
+          if r is None or not g.dominates(h, b_): continue
+          sides = [x for x in (l, r) if isinstance(x, ast.Attribute) and norm(x.value) == lv]
+          for x in sides:
+            good = x.attr == 'effective_priority'
+            ctx.ob('R-AGREE', cfo, "the overlap scan stops early only on the table's sort key", good, "break under %s %s %s" % (norm(l), o, norm(r)) if good else
+                   "the scan of the table (sorted by descending effective_priority) is abandoned on `%s %s %s`: an exact-match entry sits at the head whatever its priority field, "
+                   "so the scan can stop before reaching an overlapping wildcarded entry - CHECK_OVERLAP adds are installed instead of rejected" % (norm(l), o, norm(r)), (ftmod, n.ast), 'D2')
   # ---- is_matched_by -------------------------------------------------------
   imb = q.find_method(repo, te, 'is_matched_by', 'C04'); ctx.analysed(imb)
   g = q.cfg_of(imb)
@@ -255,11 +314,23 @@ def run (ctx):
   ctx.floor('flow_removed send site', len(sends), 1)
   ev = nh.params[1]
   for s in sends:
-    fs = q.fact_strs(g, s)
-    good = any('OFPFF_SEND_FLOW_REM' in f and f.endswith(':truthy') for f in fs)
-    ctx.ob('R-DOM', nh, "flow_removed only for entries that requested notification", good, "guarded by flags & OFPFF_SEND_FLOW_REM" if good else "facts %s" % fs, (swmod, s.ast), 'D4')
-    good = any('OFPFF_EMERG' in f and f.endswith(':falsy') for f in fs)
-    ctx.ob('R-DOM', nh, "no flow_removed for emergency entries", good, "guarded by not flags & OFPFF_EMERG" if good else "facts %s" % fs, (swmod, s.ast), 'D4')
+    # decided by evaluating the guards for every combination of the two entry flags (reason = DELETE)
+    sfr = ofreg.const_value(repo, swmod, 'OFPFF_SEND_FLOW_REM'); emg = ofreg.const_value(repo, swmod, 'OFPFF_EMERG'); rdel = ofreg.const_value(repo, swmod, 'OFPRR_DELETE')
+    res = {}
+    for a_ in (0, 1):
+      for b_ in (0, 1):
+        fl = (sfr if a_ else 0) | (emg if b_ else 0) | 2     # some unrelated bit set as well
+        ms = [((lambda e: isinstance(e, ast.Attribute) and e.attr == 'flags'), fl),
+              ((lambda e: isinstance(e, ast.Attribute) and e.attr == 'reason'), rdel),
+              ((lambda e: isinstance(e, ast.Attribute) and e.attr == 'removed'), ['<entry>'])]
+        res[(a_, b_)] = s in q.reach_under(repo, swmod, g, q.Env({}, ms), sw)
+    good = not res[(0, 0)] and not res[(0, 1)]
+    ctx.ob('R-DOM', nh, "flow_removed only for entries that requested notification", good, "send unreachable without OFPFF_SEND_FLOW_REM" if good else
+           "the send is reachable for an entry whose flags lack OFPFF_SEND_FLOW_REM (flags evaluated: %s)" % res, (swmod, s.ast), 'D4')
+    good = not res[(1, 1)]
+    ctx.ob('R-DOM', nh, "no flow_removed for emergency entries", good, "send unreachable with OFPFF_EMERG" if good else "an emergency entry with SEND_FLOW_REM produces a flow_removed", (swmod, s.ast), 'D4')
+    ctx.ob('R-DOM', nh, "an entry that requested notification gets it", res[(1, 0)], "send reachable with SEND_FLOW_REM and not EMERG" if res[(1, 0)] else
+           "with OFPFF_SEND_FLOW_REM set (and not EMERG) the send is unreachable: the controller is never told", (swmod, s.ast), 'D4')
     for rname in ('OFPRR_IDLE_TIMEOUT', 'OFPRR_HARD_TIMEOUT', 'OFPRR_DELETE'):
       rv = ofreg.const_value(repo, swmod, rname)
       env = {ev + '.reason': rv, ev + '.removed': ['<entry>']}
@@ -339,18 +410,14 @@ def run (ctx):
              "the dominating comparison is `%s`: it does not say that the time since `%s` reached `%s` - the entry can expire early or on the wrong clock" % (why or q.fact_strs(g, rn), clock, tmo), (ftmod, r), 'D5')
   ree = q.find_method(repo, ft, 'remove_expired_entries', 'C04'); ctx.analysed(ree)
   g = q.cfg_of(ree)
-  lists = {}
-  for c in calls_in(ree.node):
-    if call_name(c) == 'append' and isinstance(c.func.value, ast.Name):
-      n = q.enclosing_stmt_node(g, c)
-      fs = q.fact_strs(g, n)
-      lists[c.func.value.id] = (fs, c, n)
   pairs = {}
   for c in calls_in(ree.node):
     if call_name(c) == '_remove_specific_entries' and c.args:
       pairs[norm(c.args[0])] = norm(kwarg(c, 'reason', 1))
+  lists = [L_ for L_ in q.collected_lists(ree) if L_.name in pairs or any('timed_out' in x for x in L_.cond_strs())]
   ctx.floor('expiry lists', len(lists), 2)
-  for lname, (fs, c, n) in lists.items():
+  for L_ in lists:
+    fs = L_.cond_strs(); lname = L_.name; c = L_.site
     idle = any('is_idle_timed_out' in f and f.endswith(':truthy') for f in fs)
     hard = any('is_hard_timed_out' in f and f.endswith(':truthy') for f in fs)
     want = 'OFPRR_IDLE_TIMEOUT' if idle else ('OFPRR_HARD_TIMEOUT' if hard else None)
@@ -360,8 +427,18 @@ def run (ctx):
     if hard and not idle:
       good = any('is_idle_timed_out' in f and f.endswith(':falsy') for f in fs)
       ctx.ob('R-DOM', ree, "an entry lands in at most one expiry list", good, "hard list only when not idle-expired" if good else "an entry past both timeouts is put in both lists: two removals / two flow_removed messages", (ftmod, c), 'D5')
-    arg = norm(c.args[0]) if c.args else None
-    ctx.ob('R-AGREE', ree, "expiry list `%s` collects the scanned entry" % lname, arg == 'entry', "append(%s)" % arg, (ftmod, c), 'D5')
+    good = norm(L_.elt) == norm(L_.var) and norm(L_.it) == 'self._table'
+    ctx.ob('R-AGREE', ree, "expiry list `%s` collects the scanned entry" % lname, good, "%s for %s in %s" % (norm(L_.elt), norm(L_.var), norm(L_.it)), (ftmod, c), 'D5')
+    if L_.form == 'comprehension':
+      # a comprehension scans completely and cannot modify the table while scanning
+      ctx.ok('R-ALL', ree, "expiry sweep visits every entry", "comprehension over %s" % norm(L_.it), (ftmod, c), 'D7')
+      ctx.ok('R-ITERMUT', ree, "expiry collects first and removes after the scan", "comprehension completes before any removal", (ftmod, c), 'D6')
+  # both lists are computed before either removal (an entry's idle test must not see the table half-swept)
+  rm = g.nodes_with_call(lambda c: call_name(c) == '_remove_specific_entries')
+  for L_ in lists:
+    if L_.form == 'comprehension' and L_.node is not None:
+      good = not any(L_.node in g.reachable(r_) for r_ in rm)
+      ctx.ob('R-ORDER', ree, "list `%s` is collected before any removal" % L_.name, good, "collected first" if good else "collected after a removal already changed the table", (ftmod, L_.site), 'D6')
   for (st, h, af) in g.loop_nodes:
     body = g.loop_body_nodes(h)
     early = [n for n in body if n.kind in ('break', 'return')]
